@@ -22,10 +22,28 @@
   `pure []` unless the message completed an exchange (state before ≠ none, after = none, no
   error); `processAKE_pending_kept`: a rejected AKE message, and every AKE message outside the two
   finishing combinations, leaves queue, mode and flag of the resend state exactly as they were.
+  Whole API calls (Proofs.Events; no invariant needed, only that the call does not panic, which C13
+  guarantees): `apiCall_kind`: every function reachable from an API call was walked through — a
+  receive is quiet (message state, its stamp `lastMessageStateChange` and the clock unchanged, no
+  security event among the new log entries) up to one peer disconnect out of the encrypted state, or
+  contains exactly one `akeHasFinished`; End ends; send, the SMP calls, the extra key, `sendTlvs`
+  and `setFragmentSize` are quiet.  `apiCall_security_events`: the log only grows and the security
+  events among the new entries are `secEventsOf before after completed` — [GoneSecure] iff not
+  encrypted → encrypted, [StillSecure] iff encrypted → encrypted with a completed exchange,
+  [GoneInsecure] iff encrypted → not encrypted, [] otherwise, never two in one call
+  (`secEventsOf_cases`); `completed` implies receive, encrypted and the stamp of the clock of this
+  call, its absence implies an encrypted state was encrypted before with the same stamp
+  (`apiCall_security_events_fresh_clock`: with a clock that has moved, completed ⇔ encrypted and
+  stamped now).  `apiCall_msgState_edges`: unchanged, or not-encrypted → encrypted (receive),
+  encrypted → finished (receive), anything → plaintext (End).  `api_sequence_events_balance(_from)`:
+  over every non-panicking sequence of calls #GoneSecure = #GoneInsecure + [encrypted at the end]
+  from a conversation that is not encrypted (`runApiEvents`: the per-call logs of `runApi`
+  concatenated).
 -/
 
 import Proofs.ConvLife
 import Proofs.Fixes2
+import Proofs.Events
 namespace Otr.C18
 open Otr
 
@@ -179,5 +197,58 @@ theorem processAKE_pending_kept (K : Crypto) (t : Nat) (msg : Bytes) (s : MState
     s'.conv.resendMsgs = s.conv.resendMsgs ∧ s'.conv.mayRetransmit = s.conv.mayRetransmit ∧
     s'.conv.retransmitting = s.conv.retransmitting := by
   first | exact Otr.processAKE_pending_kept | exact @Otr.processAKE_pending_kept | (apply Otr.processAKE_pending_kept <;> assumption) | (intros; apply Otr.processAKE_pending_kept <;> assumption)
+
+/-- every non-panicking API call (any arguments, tapes, clock, start state) appends exactly the security events of its message-state transition: [GoneSecure] iff not encrypted → encrypted, [StillSecure] iff encrypted → encrypted with a completed exchange, [GoneInsecure] iff encrypted → not encrypted, [] otherwise; a completed exchange happens only in receive and stamps the state with the clock -/
+theorem apiCall_security_events (K : Crypto) (call : ApiCall) (s : MState) (r : Except Err Unit) (s' : MState)
+    (h : runM (call.run K) s = .ok (r, s')) :
+    ∃ (evs : List String) (completed : Bool),
+      s'.events = s.events ++ evs ∧
+      secEventsIn evs = secEventsOf s.conv.msgState s'.conv.msgState completed ∧
+      (completed = true → (∃ m, call = .receive m) ∧ s'.conv.msgState = .encrypted ∧
+        s'.conv.lastMessageStateChange = some s.env.now) ∧
+      (completed = false → s'.conv.msgState = .encrypted →
+        s.conv.msgState = .encrypted ∧ s'.conv.lastMessageStateChange = s.conv.lastMessageStateChange) := by
+  first | exact Otr.apiCall_security_events K call s r s' h | exact @Otr.apiCall_security_events K call s r s' h | (apply Otr.apiCall_security_events <;> assumption) | (intros; apply Otr.apiCall_security_events <;> assumption)
+
+/-- the function `secEventsOf`, case by case: which transition raises which event; never two -/
+theorem secEventsOf_cases (b a : MsgState) (c : Bool) :
+    (secEventsOf b a c = [.goneSecure] ↔ b ≠ .encrypted ∧ a = .encrypted) ∧
+    (secEventsOf b a c = [.stillSecure] ↔ b = .encrypted ∧ a = .encrypted ∧ c = true) ∧
+    (secEventsOf b a c = [.goneInsecure] ↔ b = .encrypted ∧ a ≠ .encrypted) ∧
+    (secEventsOf b a c = [] ↔ (b ≠ .encrypted ∧ a ≠ .encrypted) ∨ (b = .encrypted ∧ a = .encrypted ∧ c = false)) ∧
+    (secEventsOf b a c).length ≤ 1 :=
+  ⟨Otr.secEventsOf_goneSecure_iff b a c, Otr.secEventsOf_stillSecure_iff b a c, Otr.secEventsOf_goneInsecure_iff b a c,
+    Otr.secEventsOf_nil_iff b a c, Otr.secEventsOf_length_le_one b a c⟩
+
+/-- the same with `completed` eliminated when the clock has moved since the last message-state change: an exchange completed iff the conversation is encrypted and carries the stamp of this call -/
+theorem apiCall_security_events_fresh_clock : type_of% @Otr.apiCall_security_events_fresh_clock := @Otr.apiCall_security_events_fresh_clock
+
+/-- a non-panicking API call leaves the message state unchanged or moves it along not-encrypted → encrypted (receive only), encrypted → finished (receive only), anything → plaintext (End only) -/
+theorem apiCall_msgState_edges (K : Crypto) (call : ApiCall) (s : MState) (r : Except Err Unit) (s' : MState)
+    (h : runM (call.run K) s = .ok (r, s')) :
+    s'.conv.msgState = s.conv.msgState ∨
+    (s.conv.msgState ≠ .encrypted ∧ s'.conv.msgState = .encrypted ∧ ∃ m, call = .receive m) ∨
+    (s.conv.msgState = .encrypted ∧ s'.conv.msgState = .finished ∧ ∃ m, call = .receive m) ∨
+    (s'.conv.msgState = .plainText ∧ call = .endSession) := by
+  first | exact Otr.apiCall_msgState_edges K call s r s' h | exact @Otr.apiCall_msgState_edges K call s r s' h | (apply Otr.apiCall_msgState_edges <;> assumption) | (intros; apply Otr.apiCall_msgState_edges <;> assumption)
+
+/-- the kind of every API call: receive is quiet up to one disconnect out of the encrypted state or contains exactly one completed exchange, End ends, every other call is quiet (relations `Recv`, `Ended`, `Life` of Proofs.Events) -/
+theorem apiCall_kind : type_of% @Otr.apiCall_kind := @Otr.apiCall_kind
+
+/-- over every non-panicking sequence of API calls from a conversation that is not encrypted (a fresh one in particular): #GoneSecure = #GoneInsecure + (1 if encrypted at the end, else 0) -/
+theorem api_sequence_events_balance (K : Crypto) (steps : List ApiStep) (c c' : Conv)
+    (hc : c.msgState ≠ .encrypted) (h : runApi K c steps = .ok c') :
+    (secEventsIn (runApiEvents K c steps)).count .goneSecure =
+    (secEventsIn (runApiEvents K c steps)).count .goneInsecure + (if c'.msgState = .encrypted then 1 else 0) := by
+  first | exact Otr.api_sequence_events_balance K steps c c' hc h | exact @Otr.api_sequence_events_balance K steps c c' hc h | (apply Otr.api_sequence_events_balance <;> assumption) | (intros; apply Otr.api_sequence_events_balance <;> assumption)
+
+/-- the same from any conversation: #GoneSecure + (1 if encrypted at the start) = #GoneInsecure + (1 if encrypted at the end) -/
+theorem api_sequence_events_balance_from : type_of% @Otr.api_sequence_events_balance_from := @Otr.api_sequence_events_balance_from
+
+/-- a Signature message in `awaitingSig` completes the exchange (one `akeHasFinished`, relation `Fin`) exactly when the handler returns the next authentication state `none`; otherwise the state stays and the step was quiet -/
+theorem recvSig_completes : type_of% @Otr.recvSig_completes := @Otr.recvSig_completes
+
+/-- a Reveal-Signature message in `awaitingRevealSig`, likewise -/
+theorem recvRevealSig_completes : type_of% @Otr.recvRevealSig_completes := @Otr.recvRevealSig_completes
 
 end Otr.C18
